@@ -8,7 +8,7 @@ LEX = {
            "D": ["the", "a", "my", "no", "this"], "V": ["sleep", "eat", "be", "love", "see"],
            "Pro": ["I", "me", "it", "you"], "Rel": ["that", "who", "which"], "Adv": ["very", "quickly", "now"],
            "P": ["in", "on", "with"], "C": ["and", "or"], "NO": ["1", "2", "3.5"]},
-    "fr": {"N": ["chat", "souris", "femme", "eau", "enfant"], "A": ["grand", "petit", "rouge", "beau"],
+    "fr": {"N": ["chat", "souris", "femme", "eau", "enfant"], "A": ["grand", "petit", "rouge", "beau", "quelques"],
            "D": ["le", "un", "mon", "ce"], "V": ["dormir", "manger", "être", "aimer", "avoir"],
            "Pro": ["je", "moi", "elle", "nous"], "Rel": ["qui", "que", "lequel"], "Adv": ["très", "vite", "maintenant"],
            "P": ["dans", "sur", "avec", "de"], "C": ["et", "ou"], "NO": ["1", "2", "3.5"]},
@@ -1324,12 +1324,13 @@ META = {
     "technique": "Lean 4 proof on a store model (plans of assignments, absorption of earlier link runs) + differential "
                  "correspondence on histories + metamorphic oracle on the implementation",
     "level_text": "Kernel-checked: _getElems = in-order flattening for all nestings (idempotent); insertion orders give the same "
-                  "list; link_confluent REFUTED on the unchanged code (within a node: links are computed before the adjective "
-                  "re-ordering; across levels: ancestors are never re-linked) and proved under the side condition that every "
-                  "earlier link run performed a sub-list of the assignments of the final one; typ: merge order-free, split-"
-                  "equivalent, later-wins, False=absent for every reader idiom of the generated site inventory (decide), invalid "
-                  "entries ignored — for all lists of dicts. Tie: histories run on the real objects and on the model, abstraction "
-                  "compared after every prefix.",
+                  "list; link_confluent REFUTED (within a node the links are computed before the adjective re-ordering; across levels, "
+                  "also after the repair that re-links the ancestors, a link written by an earlier run on a node the final runs no "
+                  "longer write survives) and proved for every history under the side condition that the final link runs (receiver, "
+                  "then ancestors) rewrite every location written earlier and compile to the same constant writes; typ: merge order-"
+                  "free, split-equivalent, later-wins, False=absent for every reader idiom of the generated site inventory (decide), "
+                  "invalid entries ignored — for all lists of dicts. Tie: histories run on the real objects and on the model, "
+                  "abstraction compared after every prefix.",
     "level_note": "Trusted: terminal construction (initial record contents are inputs read from the real terminal); realization is "
                   "not modelled: text equality is checked on the implementation by the metamorphic oracle, not proved.",
     "rule": "histories (mk/add/addlist/opt/typ) over integer handles: every (constructor subset, insertion order) x bottom-up/"
